@@ -10,7 +10,7 @@
 (* trigonometric / hyperbolic functions are checked by monotone inversion  *)
 (* through the forward function.                                           *)
 (***************************************************************************)
-EXTENDS ContractsMisc, Elementary
+EXTENDS ContractsMisc, RoundDD
 
 VB(x) == BExact(Value(x))
 Undecided(p, c) == {<<"undecided", p \o ":" \o c>>}
@@ -369,14 +369,6 @@ AtanFails(x, r) ==
                             lower == Or3(Leq3(dn, BNeg(PiHalfB)), And3(Leq3(dn, PiHalfB), Leq3(SinShift(sc, BNeg(db)), BMul(vb, CosShift(sc, BNeg(db))))))
                         IN And3(upper, lower)
             IN C01Of(r) \cup Verdict("C17", "atan_bound", Decide(dl, T))
-
-\* correctly rounded double-double of a real enclosed by a (tight) ball: [ok, x]
-CorrectDD(b) ==
-  LET h1 == RN(BLoD(b))   h2 == RN(BHiD(b)) IN
-  IF h1 # h2 \/ h1.k # "f" THEN [ok |-> FALSE, x |-> TF(NaN, NaN)]
-  ELSE LET rest == BSub(b, BExact(D(h1)))
-           l1 == RN(BLoD(rest))   l2 == RN(BHiD(rest))
-       IN IF l1 # l2 THEN [ok |-> FALSE, x |-> TF(NaN, NaN)] ELSE [ok |-> TRUE, x |-> TF(h1, l1)]
 
 Atan2Fails(y, x, r) ==
   IF ~(Valid(x) /\ Valid(y)) THEN {Skip}
